@@ -114,6 +114,37 @@ func (p *Pipe) CloseWithError(err error) { p.closeWithError(&p.err, err, nil) }
 // waiting for unread data.
 func (p *Pipe) BreakWithError(err error) { p.closeWithError(&p.breakErr, err, nil) }
 
+// DiscardWithError is like BreakWithError and reports how many unread
+// bytes it made unreadable. Taking the count and cutting the reader off
+// happen in one step: a byte is either returned by a Read or counted
+// here, never both. A pipe that was closed before keeps its error.
+func (p *Pipe) DiscardWithError(err error) int {
+	if err == nil {
+		panic("err must be non-nil")
+	}
+	p.mu.Lock()
+	defer p.mu.Unlock()
+	if p.c.L == nil {
+		p.c.L = &p.mu
+	}
+	defer p.c.Signal()
+	if p.breakErr != nil {
+		// Already been done.
+		return 0
+	}
+	n := 0
+	if p.b != nil {
+		n = p.b.Len()
+	}
+	if p.err != nil {
+		// closed before: the reader keeps getting the error it was closed with
+		err = p.err
+	}
+	p.breakErr = err
+	p.closeDoneLocked()
+	return n
+}
+
 // CloseWithErrorAndCode is like CloseWithError but also sets some code to run
 // in the caller's goroutine before returning the error.
 func (p *Pipe) CloseWithErrorAndCode(err error, fn func()) { p.closeWithError(&p.err, err, fn) }
